@@ -677,9 +677,10 @@ func CTProbe(seed int64, tier string, only map[int]bool) []CTPlanEntry {
 				}
 				take := false
 				if o.derived {
-					// "right after the same operation on K0": stepped in the thorough tier only, for K0
-					// itself and two other secrets (the source-level monitor runs all secrets in both tiers)
-					if tier == "thorough" && picked < 3 && (s.class == "pattern-55" || s.class == "n-1" || s.class == "pattern-aa") {
+					// "right after the same operation on K0": the cheap operations are stepped in the thorough
+					// tier, for K0 itself and two other secrets (the source-level monitor runs every derived
+					// operation for all secrets in both tiers)
+					if tier == "thorough" && o.cost == 0 && picked < 3 && (s.class == "pattern-55" || s.class == "n-1" || s.class == "pattern-aa") {
 						picked++
 						e.Secrets = append(e.Secrets, si)
 						e.Classes = append(e.Classes, s.class)
